@@ -115,7 +115,9 @@ json generate(uint64_t seed, uint64_t idx, int tier)
 	(void)tier;
 	Rng r(seed);
 	json plan;
-	json opts = json::array({{{"n", "marker"}, {"t", "int"}, {"d", -1}}, {{"n", "include"}, {"t", "func"}, {"fn", "include"}}});
+	// "box" is a single section (created by cfg_init, before any search path exists) that may include files itself
+	json box = json::array({{{"n", "marker"}, {"t", "int"}, {"d", -1}}, {{"n", "include"}, {"t", "func"}, {"fn", "include"}}});
+	json opts = json::array({{{"n", "marker"}, {"t", "int"}, {"d", -1}}, {{"n", "include"}, {"t", "func"}, {"fn", "include"}}, {{"n", "box"}, {"t", "sec"}, {"sub", box}}});
 	plan["schemas"] = json::array({{{"opts", opts}}});
 	// file namespace: every candidate location holds a regular file, a directory, an unreadable file, or nothing
 	json fs = json::array();
@@ -160,7 +162,13 @@ json generate(uint64_t seed, uint64_t idx, int tier)
 	int nnames = sizeof(NAMES) / sizeof(NAMES[0]);
 	for (int i = 0; i < nops; i++) {
 		std::string name = NAMES[r.below(nnames)];
-		switch (r.below(4)) {
+		switch (r.below(5)) {
+		case 4: {
+			json s = parse_step(0, 0, "buf", "box { include(\"" + name + "\") }\n");
+			s["inbox"] = 1;
+			steps.push_back(s);
+			break;
+		}
 		case 0: {
 			json s = step(0, "searchpath", 0);
 			s["name"] = name;
@@ -192,9 +200,9 @@ json generate(uint64_t seed, uint64_t idx, int tier)
 	return plan;
 }
 
-long marker_of(const std::string &dump)
+long marker_of(const std::string &dump, bool inbox = false)
 {
-	size_t p = dump.find("marker:int");
+	size_t p = inbox ? dump.find("\n  marker:int") : dump.find("marker:int");
 	if (p == std::string::npos)
 		return -999;
 	size_t b = dump.find('[', p), e = dump.find(']', p);
@@ -278,7 +286,8 @@ JudgeOut judge(const json &plan)
 			bool resolved = dirs.empty() ? (full = M.tilde(name), true) : M.search(dirs, name, &full);
 			int openr = resolved ? M.open_result(full) : -1;
 			bool want_ok = resolved && openr == 0;
-			out.k.add(is_file ? "route.top_level_parse" : "route.include");
+			bool inbox = st.value("inbox", 0) != 0;
+			out.k.add(is_file ? "route.top_level_parse" : inbox ? "route.include_inside_single_section" : "route.include");
 			if (want_ok)
 				out.k.add("probe.file_resolved_and_parsed");
 			long want_ret = want_ok ? 0 : (is_file ? -1 : 1);
@@ -288,7 +297,7 @@ JudgeOut judge(const json &plan)
 							    (resolved ? "resolves to " + full : "not found") + ")",
 						    nullptr});
 			else if (want_ok) {
-				long m = marker_of(o.dump);
+				long m = marker_of(o.dump, inbox);
 				long wm = M.marker_of_path(full);
 				cur_marker = wm;
 				if (m != wm)
